@@ -279,9 +279,11 @@ def oracle(case, impl, spec):
     if len(im) != len(sp):
         return 'transcript has %d fields, expected %d' % (len(im), len(sp))
     if case.startswith('K '):
+        nk = len(case.split(' ')) - 2
         for n, (a, b) in enumerate(zip(im, sp)):
             if b != '?' and a != b:
-                return 'key %d: Tree lookup gives %s, the reference order demands %s' % (n, a, b)
+                return 'key %d: %s lookup gives %s, the reference order demands %s' % (
+                    n % (nk + 1), 'Tree' if n < nk else 'Table', a, b)
         return None
     names = ['a', 'b', 'c']
     m = [[None] * 3 for _ in range(3)]
@@ -335,12 +337,112 @@ def nontrivial(case, impl):
         return False
     f = impl.split(' ')
     if case.startswith('K '):
-        ok = any(x not in ('raise', 'none') for x in f)
+        ok = any(x not in ('raise', 'none', '|') for x in f)
     else:
         ok = len(f) == 9 and any(':' in f[n] for n in range(9) if n % 4 != 0)
     if ok:
         DISTINCT_INPUTS.add(hash(case))
     return ok
+
+
+# ------------------------------------------------------------------ shrinking of C cases (structural)
+def parse_text(s):
+    """inverse of Gen.text"""
+    pos = [0]
+
+    def hexrun():
+        b = pos[0]
+        while pos[0] < len(s) and s[pos[0]] in '0123456789abcdef': pos[0] += 1
+        return s[b:pos[0]]
+
+    def val():
+        c = s[pos[0]]; pos[0] += 1
+        if c == 'i':
+            b = pos[0]
+            while pos[0] < len(s) and s[pos[0]] in '-0123456789': pos[0] += 1
+            return ('i', int(s[b:pos[0]]))
+        if c == 'f': return ('f', int(hexrun(), 16))
+        if c in 'st': return (c, bytes.fromhex(hexrun()))
+        if c == 'b':
+            b = pos[0]
+            while s[pos[0]] != '.': pos[0] += 1
+            tid = int(s[b:pos[0]]); pos[0] += 1
+            return ('b', tid, bytes.fromhex(hexrun()))
+        items = []
+        pos[0] += 1                      # (
+        while s[pos[0]] != ')':
+            if s[pos[0]] == ',': pos[0] += 1
+            x = val()
+            if c == 'M':
+                pos[0] += 1              # :
+                items.append((x, val()))
+            else:
+                items.append(x)
+        pos[0] += 1
+        return (c, items)
+    return val()
+
+
+def simpler(v):
+    """candidate replacements of v, of the same sort, each structurally smaller or more canonical"""
+    k = v[0]
+    if k == 'i':
+        for c in (0, 1, -1, 2**32, -2**32, 2**31, v[1] // 2**32 * 2**32):
+            if c != v[1] and abs(c) <= abs(v[1]): yield ('i', c)
+    elif k == 'f':
+        for c in (0, fbits(1.0), fbits(-1.0)):
+            if c != v[1]: yield ('f', c)
+    elif k in 'st':
+        if v[1]:
+            yield (k, v[1][:-1]); yield (k, v[1][1:])
+    elif k == 'b':
+        for i in range(len(v[2])):
+            if v[2][i]: yield ('b', v[1], v[2][:i] + b'\0' + v[2][i + 1:])
+    elif k in 'ALT':
+        for i in range(len(v[1])):
+            yield (k, v[1][:i] + v[1][i + 1:])
+        for i in range(len(v[1])):
+            for c in simpler(v[1][i]):
+                yield Gen.norm_seq(k, v[1][:i] + [c] + v[1][i + 1:])
+    else:
+        for i in range(len(v[1])):
+            yield ('M', v[1][:i] + v[1][i + 1:])
+        for i in range(len(v[1])):
+            a, b = v[1][i]
+            for c in simpler(b):
+                yield Gen.force_kinds(('M', v[1][:i] + [(a, c)] + v[1][i + 1:]))
+            for c in simpler(a):
+                yield Gen.force_kinds(('M', v[1][:i] + [(c, b)] + v[1][i + 1:]))
+
+
+def shrink_c(case, fails, budget=400):
+    t = case.split(' ')
+    try:
+        vals = [parse_text(x) for x in t[2:]]
+    except Exception:
+        return case
+    g = Gen(None)
+    changed = True
+    while changed and budget > 0:
+        changed = False
+        for p in range(len(vals)):
+            for c in simpler(vals[p]):
+                budget -= 1
+                if budget <= 0: break
+                cand = vals[:p] + [c] + vals[p + 1:]
+                txt = ' '.join(t[:2] + [g.text(v) for v in cand])
+                if fails(txt):
+                    vals, changed = cand, True
+                    break
+            if changed or budget <= 0: break
+    return ' '.join(t[:2] + [g.text(v) for v in vals])
+
+
+class Diff(vlib.Differential):
+    def shrink(self, case, fails):
+        if case.startswith('C '):
+            return shrink_c(case, fails)
+        return vlib.Differential.shrink(self, case, fails)
 
 
 def split(case):
@@ -405,7 +507,7 @@ def run(ctx):
     run_impl = lambda cs: ctx.run_lines(h, cs)[1]
     run_model = lambda cs: ctx.run_lines(drv, cs, args=['model'])[1]
     run_spec = lambda cs: ctx.run_lines(drv, cs, args=['spec'])[1]
-    d = vlib.Differential(ctx, 'cmp', run_impl, run_model, run_spec, oracle, corr, nontrivial, split, join)
+    d = Diff(ctx, 'cmp', run_impl, run_model, run_spec, oracle, corr, nontrivial, split, join)
     rp = os.environ.get('VERIF_REPLAY')
     if rp:
         r = json.load(open(rp))
